@@ -248,8 +248,9 @@ Proof. destruct st; reflexivity. Qed.
 Theorem run_snapshots O H : forall steps lk m n res d,
   nth_error (run O H steps lk m) n = Some (res, d) ->
   d = dump (final O H (firstn (S n) steps) lk m) /\
-  res = snd (fst (do_step_l O H (nth n steps (SStore 0 OList)) (lock_after (firstn n steps) lk)
-                            (final O H (firstn n steps) lk m))).
+  res = view (nth n steps (SStore 0 OList))
+             (snd (fst (do_step_l O H (nth n steps (SStore 0 OList)) (lock_after (firstn n steps) lk)
+                                  (final O H (firstn n steps) lk m)))).
 Proof.
   induction steps as [|st r IH]; intros lk m n res d Hn; [destruct n; discriminate|].
   cbn [run] in Hn. destruct (do_step_l O H st lk m) as [[mo rs] lk'] eqn:Hd.
